@@ -348,6 +348,9 @@ func tagCompareLoops(r *Report, rt *Routine, flow *FlowResult, a *xAnalysis, ver
 		step := map[string]int64{}
 		var problems []string
 		opw := func(op string) int {
+			if len(op) == 7 && strings.HasPrefix(op, "MOV") && (strings.HasSuffix(op, "ZX") || strings.HasSuffix(op, "SX")) {
+				return map[byte]int{'B': 1, 'W': 2, 'L': 4}[op[3]] // extending load: the source width carries the data
+			}
 			switch op[len(op)-1] {
 			case 'Q':
 				return 8
